@@ -7,8 +7,8 @@
    not yet covered by a theorem are decided by the implementation <-> specification <->
    hardware differential run only (listed as unproved_forms in the evidence). *)
 From Coq Require Import ZArith Bool List Lia.
-From AxV Require Import Bits Outcome Codes Iced State Rt Mem Trace Exec ExecP FrameTac FrameP RegFile RegsP ByteStore ISA CodeSem IsaP OperandP FlagsP RmP AluP AluRmP AluMemP Alu32P AluImmP AluImm32P TestP FlagsUnP UnaryP Unary32P AdcP.
-From AxG Require Import Flags Regs Operand Helpers Dispatch Frame I_add I_and I_sub I_cmp I_xor I_test I_inc I_dec I_neg I_not I_adc.
+From AxV Require Import Bits Outcome Codes Iced State Rt Mem Trace Exec ExecP FrameTac FrameP RegFile RegsP ByteStore ISA CodeSem IsaP OperandP FlagsP RmP AluP AluRmP AluMemP Alu32P AluImmP AluImm32P TestP FlagsUnP UnaryP Unary32P AdcP MovImmP ShiftP Shift32P MovxP Alu16P Alu8P AluImm16P AluImm8P Unary16P Unary8P Test16P Test8P MovImm16P MovImm8P Adc32P AdcImmP MovStore32P MovStore16P MovStore8P Adc16P Adc8P Div32P MulP Shift16P Shift8P.
+From AxG Require Import Flags Regs Operand Helpers Dispatch Frame I_add I_and I_sub I_cmp I_xor I_test I_inc I_dec I_neg I_not I_adc I_shl I_shr I_imul I_mul.
 Local Open Scope Z_scope.
 
 (* The flag helper of the emulator (state/flags.rs set_flags!, one instance per operand width,
@@ -338,6 +338,498 @@ Proof.
   - exact (not_rm32_refines c i s Hwf HI Hrf Hn Hs0 Ec).
 Qed.
 
+(* XOR with an immediate (64 and 32 bits, register or memory destination, accumulator short forms) *)
+Theorem C02_xor_imm : forall c i s,
+  wf_regs s -> Inv (mem s) -> 0 <= rflags s < 2 ^ 64 -> i_op_count i = 2 ->
+  (rm64_shape i 0 -> imm64x_shape i ->
+     (i_code i = C_Xor_rm64_imm8 -> xori_refines i s (instr_xor_rm64_imm8 c i s)) /\
+     xori_refines i s (instr_xor_rm64_imm32 c i s) /\
+     (i_code i = C_Xor_RAX_imm32 -> xori_refines i s (instr_xor_rax_imm32 c i s))) /\
+  (rm32_shape i 0 -> imm32_shape i ->
+     (i_code i = C_Xor_rm32_imm8 -> rmw32_refines i s XOR (instr_xor_rm32_imm8 c i s)) /\
+     rmw32_refines i s XOR (instr_xor_rm32_imm32 c i s) /\
+     (i_code i = C_Xor_EAX_imm32 -> rmw32_refines i s XOR (instr_xor_eax_imm32 c i s))).
+Proof.
+  intros c i s Hwf HI Hrf Hn. split; intros Hs0 Him.
+  - exact (xor_rm64_imm_refines c i s Hwf HI Hn Hrf Hs0 Him).
+  - exact (xor_rm32_imm_refines c i s Hwf HI Hn Hrf Hs0 Him).
+Qed.
+
+(* TEST with an immediate: r/m64, imm32 (sign-extended) and RAX, imm32; r/m32, imm32 and EAX, imm32 *)
+Theorem C02_test_imm : forall c i s,
+  wf_regs s -> Inv (mem s) -> 0 <= rflags s < 2 ^ 64 -> i_op_count i = 2 ->
+  (rm64_shape i 0 -> imm64_shape i ->
+     test_refines i s 64 (instr_test_rm64_imm32 c i s) /\
+     (i_code i = C_Test_RAX_imm32 -> test_refines i s 64 (instr_test_rax_imm32 c i s))) /\
+  (rm32_shape i 0 -> imm32_shape i ->
+     test_refines i s 32 (instr_test_rm32_imm32 c i s) /\
+     (i_code i = C_Test_EAX_imm32 -> test_refines i s 32 (instr_test_eax_imm32 c i s))).
+Proof.
+  intros c i s Hwf HI Hrf Hn. split; intros Hs0 Him; split.
+  - exact (test_rm64_imm32_refines c i s Hwf HI Hrf Hn Hs0 Him).
+  - exact (test_rax_imm32_refines c i s Hwf HI Hrf Hn Hs0 Him).
+  - exact (test_rm32_imm32_refines c i s Hwf HI Hrf Hn Hs0 Him).
+  - exact (test_eax_imm32_refines c i s Hwf HI Hrf Hn Hs0 Him).
+Qed.
+
+(* SHL / SHR r/m64 by CL and by imm8 (register or memory destination): the count is masked to six
+   bits; a masked count of 0 changes no flag and rewrites the destination with its own value;
+   otherwise CF is the last bit shifted out, OF follows the architectural formula (defined for a count
+   of 1; the theorem states equality with the specification's formula for every count, i.e. also on
+   the bits the architecture leaves undefined), SF/ZF/PF from the result.
+   [shift_refines i s left cnt run]: isa_exec (SShift left 64 cnt) i s = IDone s' _ -> run = (Ok tt, s'). *)
+Theorem C02_shift_rm64 : forall c i s,
+  wf_regs s -> Inv (mem s) -> 0 <= rflags s < 2 ^ 64 -> i_op_count i = 2 -> rm64_shape i 0 ->
+  (i_op_kind i 1 = OK_Register -> i_op_register i 1 = CL ->
+     (i_code i = C_Shl_rm64_CL -> shift_refines i s true CntCL (instr_shl_rm64_cl c i s)) /\
+     (i_code i = C_Shr_rm64_CL -> shift_refines i s false CntCL (instr_shr_rm64_cl c i s))) /\
+  (i_op_kind i 1 = OK_Immediate8 -> 0 <= i_immediate8 i < 2 ^ 8 ->
+     (i_code i = C_Shl_rm64_imm8 -> shift_refines i s true CntImm (instr_shl_rm64_imm8 c i s)) /\
+     (i_code i = C_Shr_rm64_imm8 -> shift_refines i s false CntImm (instr_shr_rm64_imm8 c i s))).
+Proof.
+  intros c i s Hwf HI Hrf Hn Hs0. split; intros K1 R1; split; intros Ec.
+  - exact (shl_rm64_cl_refines c i s Hwf HI Hrf Hn Hs0 Ec K1 R1).
+  - exact (shr_rm64_cl_refines c i s Hwf HI Hrf Hn Hs0 Ec K1 R1).
+  - exact (shl_rm64_imm8_refines c i s Hwf HI Hrf Hn Hs0 Ec K1 R1).
+  - exact (shr_rm64_imm8_refines c i s Hwf HI Hrf Hn Hs0 Ec K1 R1).
+Qed.
+
+(* the one-bit encodings SHL / SHR r/m64, 1 (iced delivers the count 1 as an 8-bit immediate) *)
+Theorem C02_shift_rm64_1 : forall c i s,
+  wf_regs s -> Inv (mem s) -> 0 <= rflags s < 2 ^ 64 -> i_op_count i = 2 -> rm64_shape i 0 ->
+  i_op_kind i 1 = OK_Immediate8 -> i_immediate8 i = 1 ->
+  (i_code i = C_Shl_rm64_1 -> shift_refines i s true CntOne (instr_shl_rm64_1 c i s)) /\
+  (i_code i = C_Shr_rm64_1 -> shift_refines i s false CntOne (instr_shr_rm64_1 c i s)).
+Proof.
+  intros c i s Hwf HI Hrf Hn Hs0 K1 R1. split; intros Ec.
+  - exact (shl_rm64_1_refines c i s Hwf HI Hrf Hn Hs0 K1 R1 Ec).
+  - exact (shr_rm64_1_refines c i s Hwf HI Hrf Hn Hs0 K1 R1 Ec).
+Qed.
+
+(* the same at 32 bits (count masked to five bits; a 32-bit register destination is zero-extended also
+   when the masked count is 0) *)
+Theorem C02_shift_rm32 : forall c i s,
+  wf_regs s -> Inv (mem s) -> 0 <= rflags s < 2 ^ 64 -> i_op_count i = 2 -> rm32_shape i 0 ->
+  (i_op_kind i 1 = OK_Register -> i_op_register i 1 = CL ->
+     (i_code i = C_Shl_rm32_CL -> shift32_refines i s true CntCL (instr_shl_rm32_cl c i s)) /\
+     (i_code i = C_Shr_rm32_CL -> shift32_refines i s false CntCL (instr_shr_rm32_cl c i s))) /\
+  (i_op_kind i 1 = OK_Immediate8 -> 0 <= i_immediate8 i < 2 ^ 8 ->
+     (i_code i = C_Shl_rm32_imm8 -> shift32_refines i s true CntImm (instr_shl_rm32_imm8 c i s)) /\
+     (i_code i = C_Shr_rm32_imm8 -> shift32_refines i s false CntImm (instr_shr_rm32_imm8 c i s))).
+Proof. exact shift_rm32_refines. Qed.
+
+(* ---- the same families at 16 and 8 bits (a 16- or 8-bit register write keeps the other bits of the
+   register; generated from the 32-bit statements, proofs in Proofs/Alu16P.v, Alu8P.v, AluImm16P.v,
+   AluImm8P.v, Unary16P.v, Unary8P.v, Test16P.v, Test8P.v) ---- *)
+Theorem C02_alu_r16_rm16 : forall c i s,
+  wf_regs s -> Inv (mem s) -> 0 <= rflags s < 2 ^ 63 -> i_op_count i = 2 ->
+  i_op_kind i 0 = OK_Register -> is_gpr16 (i_op_register i 0) = true -> rm16_shape i 1 ->
+  (i_code i = C_Add_r16_rm16 -> alu16_refines i s ADD (instr_add_r16_rm16 c i s)) /\
+  (i_code i = C_Sub_r16_rm16 -> alu16_refines i s SUB (instr_sub_r16_rm16 c i s)) /\
+  (i_code i = C_Cmp_r16_rm16 -> alu16_refines i s CMP (instr_cmp_r16_rm16 c i s)) /\
+  (i_code i = C_And_r16_rm16 -> alu16_refines i s AND (instr_and_r16_rm16 c i s)) /\
+  (i_code i = C_Xor_r16_rm16 -> alu16_refines i s XOR (instr_xor_r16_rm16 c i s)).
+Proof.
+  intros c i s Hwf HI Hrf Hn K0 H0 Hs.
+  assert (Hrf64 : 0 <= rflags s < 2 ^ 64) by (change (2 ^ 63) with 9223372036854775808 in Hrf; change (2 ^ 64) with 18446744073709551616; Lia.lia).
+  repeat split; intros Ec.
+  - exact (add_r16_rm16_refines c i s Hwf HI Hrf Hn K0 H0 Hs Ec).
+  - exact (sub_r16_rm16_refines c i s Hwf HI Hrf Hn K0 H0 Hs Ec).
+  - exact (cmp_r16_rm16_refines c i s Hwf HI Hrf Hn K0 H0 Hs Ec).
+  - exact (and_r16_rm16_refines c i s Hwf HI Hrf64 Hn K0 H0 Hs Ec).
+  - exact (xor_r16_rm16_refines c i s Hwf HI Hrf64 Hn K0 H0 Hs Ec).
+Qed.
+
+Theorem C02_alu_rm16_r16 : forall c i s,
+  wf_regs s -> Inv (mem s) -> 0 <= rflags s < 2 ^ 63 -> i_op_count i = 2 ->
+  rm16_shape i 0 -> i_op_kind i 1 = OK_Register -> is_gpr16 (i_op_register i 1) = true ->
+  (i_code i = C_Add_rm16_r16 -> rmw16_refines i s ADD (instr_add_rm16_r16 c i s)) /\
+  (i_code i = C_Sub_rm16_r16 -> rmw16_refines i s SUB (instr_sub_rm16_r16 c i s)) /\
+  (i_code i = C_Cmp_rm16_r16 -> rmw16_refines i s CMP (instr_cmp_rm16_r16 c i s)) /\
+  (i_code i = C_And_rm16_r16 -> rmw16_refines i s AND (instr_and_rm16_r16 c i s)).
+Proof.
+  intros c i s Hwf HI Hrf Hn Hs0 K1 H1. repeat split; intros Ec.
+  - exact (add_rm16_r16_refines c i s Hwf HI Hrf Hn Hs0 K1 H1 Ec).
+  - exact (sub_rm16_r16_refines c i s Hwf HI Hrf Hn Hs0 K1 H1 Ec).
+  - exact (cmp_rm16_r16_refines c i s Hwf HI Hrf Hn Hs0 K1 H1 Ec).
+  - exact (and_rm16_r16_refines c i s Hwf HI Hrf Hn Hs0 K1 H1 Ec).
+Qed.
+
+Theorem C02_alu_rm16_imm : forall c i s,
+  wf_regs s -> Inv (mem s) -> 0 <= rflags s < 2 ^ 63 -> i_op_count i = 2 -> rm16_shape i 0 -> imm16_shape i ->
+  (i_code i = C_Add_rm16_imm8 -> rmw16_refines i s ADD (instr_add_rm16_imm8 c i s)) /\
+  rmw16_refines i s ADD (instr_add_rm16_imm16 c i s) /\
+  (i_code i = C_Add_AX_imm16 -> rmw16_refines i s ADD (instr_add_ax_imm16 c i s)) /\
+  (i_code i = C_Sub_rm16_imm8 -> rmw16_refines i s SUB (instr_sub_rm16_imm8 c i s)) /\
+  rmw16_refines i s SUB (instr_sub_rm16_imm16 c i s) /\
+  (i_code i = C_Sub_AX_imm16 -> rmw16_refines i s SUB (instr_sub_ax_imm16 c i s)) /\
+  (i_code i = C_Cmp_rm16_imm8 -> rmw16_refines i s CMP (instr_cmp_rm16_imm8 c i s)) /\
+  rmw16_refines i s CMP (instr_cmp_rm16_imm16 c i s) /\
+  (i_code i = C_Cmp_AX_imm16 -> rmw16_refines i s CMP (instr_cmp_ax_imm16 c i s)) /\
+  (i_code i = C_And_rm16_imm8 -> rmw16_refines i s AND (instr_and_rm16_imm8 c i s)) /\
+  rmw16_refines i s AND (instr_and_rm16_imm16 c i s) /\
+  (i_code i = C_And_AX_imm16 -> rmw16_refines i s AND (instr_and_ax_imm16 c i s)).
+Proof.
+  intros c i s Hwf HI Hrf Hn Hs0 Him.
+  repeat match goal with |- _ /\ _ => split end; try intros Ec.
+  - exact (add_rm16_imm8_refines c i s Hwf HI Hrf Hn Hs0 Him Ec).
+  - exact (add_rm16_imm16_refines c i s Hwf HI Hrf Hn Hs0 Him).
+  - exact (add_ax_imm16_refines c i s Hwf HI Hrf Hn Hs0 Him Ec).
+  - exact (sub_rm16_imm8_refines c i s Hwf HI Hrf Hn Hs0 Him Ec).
+  - exact (sub_rm16_imm16_refines c i s Hwf HI Hrf Hn Hs0 Him).
+  - exact (sub_ax_imm16_refines c i s Hwf HI Hrf Hn Hs0 Him Ec).
+  - exact (cmp_rm16_imm8_refines c i s Hwf HI Hrf Hn Hs0 Him Ec).
+  - exact (cmp_rm16_imm16_refines c i s Hwf HI Hrf Hn Hs0 Him).
+  - exact (cmp_ax_imm16_refines c i s Hwf HI Hrf Hn Hs0 Him Ec).
+  - exact (and_rm16_imm8_refines c i s Hwf HI Hrf Hn Hs0 Him Ec).
+  - exact (and_rm16_imm16_refines c i s Hwf HI Hrf Hn Hs0 Him).
+  - exact (and_ax_imm16_refines c i s Hwf HI Hrf Hn Hs0 Him Ec).
+Qed.
+
+Theorem C02_unary_rm16 : forall c i s,
+  wf_regs s -> Inv (mem s) -> 0 <= rflags s < 2 ^ 64 -> i_op_count i = 1 -> rm16_shape i 0 ->
+  (i_code i = C_Inc_rm16 -> un16_refines i s INC (instr_inc_rm16 c i s)) /\
+  (i_code i = C_Dec_rm16 -> un16_refines i s DEC (instr_dec_rm16 c i s)) /\
+  (i_code i = C_Neg_rm16 -> un16_refines i s NEG (instr_neg_rm16 c i s)) /\
+  (i_code i = C_Not_rm16 -> un16_refines i s NOT (instr_not_rm16 c i s)).
+Proof.
+  intros c i s Hwf HI Hrf Hn Hs0. repeat split; intros Ec.
+  - exact (inc_rm16_refines c i s Hwf HI Hrf Hn Hs0 Ec).
+  - exact (dec_rm16_refines c i s Hwf HI Hrf Hn Hs0 Ec).
+  - exact (neg_rm16_refines c i s Hwf HI Hrf Hn Hs0 Ec).
+  - exact (not_rm16_refines c i s Hwf HI Hrf Hn Hs0 Ec).
+Qed.
+
+Theorem C02_test_rm16_r16 : forall c i s,
+  wf_regs s -> Inv (mem s) -> 0 <= rflags s < 2 ^ 64 -> i_op_count i = 2 -> rm16_shape i 0 ->
+  i_op_kind i 1 = OK_Register -> is_gpr16 (i_op_register i 1) = true -> i_code i = C_Test_rm16_r16 ->
+  match isa_exec (SAlu TEST 16) i s with
+  | IDone s' u => instr_test_rm16_r16 c i s = (Ok tt, s') /\ u = 0
+  | IFault FMem => exists e, instr_test_rm16_r16 c i s = (Err e, s)
+  | IFault _ => False
+  end.
+Proof. exact test_rm16_r16_refines. Qed.
+
+Theorem C02_alu_r8_rm8 : forall c i s,
+  wf_regs s -> Inv (mem s) -> 0 <= rflags s < 2 ^ 63 -> i_op_count i = 2 ->
+  i_op_kind i 0 = OK_Register -> is_gpr8 (i_op_register i 0) = true -> rm8_shape i 1 ->
+  (i_code i = C_Add_r8_rm8 -> alu8_refines i s ADD (instr_add_r8_rm8 c i s)) /\
+  (i_code i = C_Sub_r8_rm8 -> alu8_refines i s SUB (instr_sub_r8_rm8 c i s)) /\
+  (i_code i = C_Cmp_r8_rm8 -> alu8_refines i s CMP (instr_cmp_r8_rm8 c i s)) /\
+  (i_code i = C_And_r8_rm8 -> alu8_refines i s AND (instr_and_r8_rm8 c i s)) /\
+  (i_code i = C_Xor_r8_rm8 -> alu8_refines i s XOR (instr_xor_r8_rm8 c i s)).
+Proof.
+  intros c i s Hwf HI Hrf Hn K0 H0 Hs.
+  assert (Hrf64 : 0 <= rflags s < 2 ^ 64) by (change (2 ^ 63) with 9223372036854775808 in Hrf; change (2 ^ 64) with 18446744073709551616; Lia.lia).
+  repeat split; intros Ec.
+  - exact (add_r8_rm8_refines c i s Hwf HI Hrf Hn K0 H0 Hs Ec).
+  - exact (sub_r8_rm8_refines c i s Hwf HI Hrf Hn K0 H0 Hs Ec).
+  - exact (cmp_r8_rm8_refines c i s Hwf HI Hrf Hn K0 H0 Hs Ec).
+  - exact (and_r8_rm8_refines c i s Hwf HI Hrf64 Hn K0 H0 Hs Ec).
+  - exact (xor_r8_rm8_refines c i s Hwf HI Hrf64 Hn K0 H0 Hs Ec).
+Qed.
+
+Theorem C02_alu_rm8_r8 : forall c i s,
+  wf_regs s -> Inv (mem s) -> 0 <= rflags s < 2 ^ 63 -> i_op_count i = 2 ->
+  rm8_shape i 0 -> i_op_kind i 1 = OK_Register -> is_gpr8 (i_op_register i 1) = true ->
+  (i_code i = C_Add_rm8_r8 -> rmw8_refines i s ADD (instr_add_rm8_r8 c i s)) /\
+  (i_code i = C_Sub_rm8_r8 -> rmw8_refines i s SUB (instr_sub_rm8_r8 c i s)) /\
+  (i_code i = C_Cmp_rm8_r8 -> rmw8_refines i s CMP (instr_cmp_rm8_r8 c i s)) /\
+  (i_code i = C_And_rm8_r8 -> rmw8_refines i s AND (instr_and_rm8_r8 c i s)).
+Proof.
+  intros c i s Hwf HI Hrf Hn Hs0 K1 H1. repeat split; intros Ec.
+  - exact (add_rm8_r8_refines c i s Hwf HI Hrf Hn Hs0 K1 H1 Ec).
+  - exact (sub_rm8_r8_refines c i s Hwf HI Hrf Hn Hs0 K1 H1 Ec).
+  - exact (cmp_rm8_r8_refines c i s Hwf HI Hrf Hn Hs0 K1 H1 Ec).
+  - exact (and_rm8_r8_refines c i s Hwf HI Hrf Hn Hs0 K1 H1 Ec).
+Qed.
+
+Theorem C02_alu_rm8_imm : forall c i s,
+  wf_regs s -> Inv (mem s) -> 0 <= rflags s < 2 ^ 63 -> i_op_count i = 2 -> rm8_shape i 0 -> imm8_shape i ->
+  (i_code i = C_Add_rm8_imm8_82 -> rmw8_refines i s ADD (instr_add_rm8_imm8_82 c i s)) /\
+  rmw8_refines i s ADD (instr_add_rm8_imm8 c i s) /\
+  (i_code i = C_Add_AL_imm8 -> rmw8_refines i s ADD (instr_add_al_imm8 c i s)) /\
+  (i_code i = C_Sub_rm8_imm8_82 -> rmw8_refines i s SUB (instr_sub_rm8_imm8_82 c i s)) /\
+  rmw8_refines i s SUB (instr_sub_rm8_imm8 c i s) /\
+  (i_code i = C_Sub_AL_imm8 -> rmw8_refines i s SUB (instr_sub_al_imm8 c i s)) /\
+  (i_code i = C_Cmp_rm8_imm8_82 -> rmw8_refines i s CMP (instr_cmp_rm8_imm8_82 c i s)) /\
+  rmw8_refines i s CMP (instr_cmp_rm8_imm8 c i s) /\
+  (i_code i = C_Cmp_AL_imm8 -> rmw8_refines i s CMP (instr_cmp_al_imm8 c i s)) /\
+  (i_code i = C_And_rm8_imm8_82 -> rmw8_refines i s AND (instr_and_rm8_imm8_82 c i s)) /\
+  rmw8_refines i s AND (instr_and_rm8_imm8 c i s) /\
+  (i_code i = C_And_AL_imm8 -> rmw8_refines i s AND (instr_and_al_imm8 c i s)).
+Proof.
+  intros c i s Hwf HI Hrf Hn Hs0 Him.
+  repeat match goal with |- _ /\ _ => split end; try intros Ec.
+  - exact (add_rm8_imm8_82_refines c i s Hwf HI Hrf Hn Hs0 Him Ec).
+  - exact (add_rm8_imm8_refines c i s Hwf HI Hrf Hn Hs0 Him).
+  - exact (add_al_imm8_refines c i s Hwf HI Hrf Hn Hs0 Him Ec).
+  - exact (sub_rm8_imm8_82_refines c i s Hwf HI Hrf Hn Hs0 Him Ec).
+  - exact (sub_rm8_imm8_refines c i s Hwf HI Hrf Hn Hs0 Him).
+  - exact (sub_al_imm8_refines c i s Hwf HI Hrf Hn Hs0 Him Ec).
+  - exact (cmp_rm8_imm8_82_refines c i s Hwf HI Hrf Hn Hs0 Him Ec).
+  - exact (cmp_rm8_imm8_refines c i s Hwf HI Hrf Hn Hs0 Him).
+  - exact (cmp_al_imm8_refines c i s Hwf HI Hrf Hn Hs0 Him Ec).
+  - exact (and_rm8_imm8_82_refines c i s Hwf HI Hrf Hn Hs0 Him Ec).
+  - exact (and_rm8_imm8_refines c i s Hwf HI Hrf Hn Hs0 Him).
+  - exact (and_al_imm8_refines c i s Hwf HI Hrf Hn Hs0 Him Ec).
+Qed.
+
+Theorem C02_unary_rm8 : forall c i s,
+  wf_regs s -> Inv (mem s) -> 0 <= rflags s < 2 ^ 64 -> i_op_count i = 1 -> rm8_shape i 0 ->
+  (i_code i = C_Inc_rm8 -> un8_refines i s INC (instr_inc_rm8 c i s)) /\
+  (i_code i = C_Dec_rm8 -> un8_refines i s DEC (instr_dec_rm8 c i s)) /\
+  (i_code i = C_Neg_rm8 -> un8_refines i s NEG (instr_neg_rm8 c i s)) /\
+  (i_code i = C_Not_rm8 -> un8_refines i s NOT (instr_not_rm8 c i s)).
+Proof.
+  intros c i s Hwf HI Hrf Hn Hs0. repeat split; intros Ec.
+  - exact (inc_rm8_refines c i s Hwf HI Hrf Hn Hs0 Ec).
+  - exact (dec_rm8_refines c i s Hwf HI Hrf Hn Hs0 Ec).
+  - exact (neg_rm8_refines c i s Hwf HI Hrf Hn Hs0 Ec).
+  - exact (not_rm8_refines c i s Hwf HI Hrf Hn Hs0 Ec).
+Qed.
+
+Theorem C02_test_rm8_r8 : forall c i s,
+  wf_regs s -> Inv (mem s) -> 0 <= rflags s < 2 ^ 64 -> i_op_count i = 2 -> rm8_shape i 0 ->
+  i_op_kind i 1 = OK_Register -> is_gpr8 (i_op_register i 1) = true -> i_code i = C_Test_rm8_r8 ->
+  match isa_exec (SAlu TEST 8) i s with
+  | IDone s' u => instr_test_rm8_r8 c i s = (Ok tt, s') /\ u = 0
+  | IFault FMem => exists e, instr_test_rm8_r8 c i s = (Err e, s)
+  | IFault _ => False
+  end.
+Proof. exact test_rm8_r8_refines. Qed.
+
+
+Theorem C02_xor_test_imm16 : forall c i s,
+  wf_regs s -> Inv (mem s) -> 0 <= rflags s < 2 ^ 64 -> i_op_count i = 2 -> rm16_shape i 0 -> imm16_shape i ->
+  ((i_code i = C_Xor_rm16_imm8 -> rmw16_refines i s XOR (instr_xor_rm16_imm8 c i s)) /\
+   rmw16_refines i s XOR (instr_xor_rm16_imm16 c i s) /\
+   (i_code i = C_Xor_AX_imm16 -> rmw16_refines i s XOR (instr_xor_ax_imm16 c i s))) /\
+  test_refines i s 16 (instr_test_rm16_imm16 c i s) /\
+  (i_code i = C_Test_AX_imm16 -> test_refines i s 16 (instr_test_ax_imm16 c i s)).
+Proof.
+  intros c i s Hwf HI Hrf Hn Hs0 Him. split; [|split].
+  - exact (xor_rm16_imm_refines c i s Hwf HI Hn Hrf Hs0 Him).
+  - exact (test_rm16_imm16_refines c i s Hwf HI Hrf Hn Hs0 Him).
+  - exact (test_ax_imm16_refines c i s Hwf HI Hrf Hn Hs0 Him).
+Qed.
+
+Theorem C02_xor_test_imm8 : forall c i s,
+  wf_regs s -> Inv (mem s) -> 0 <= rflags s < 2 ^ 64 -> i_op_count i = 2 -> rm8_shape i 0 -> imm8_shape i ->
+  ((i_code i = C_Xor_rm8_imm8_82 -> rmw8_refines i s XOR (instr_xor_rm8_imm8_82 c i s)) /\
+   rmw8_refines i s XOR (instr_xor_rm8_imm8 c i s) /\
+   (i_code i = C_Xor_AL_imm8 -> rmw8_refines i s XOR (instr_xor_al_imm8 c i s))) /\
+  test_refines i s 8 (instr_test_rm8_imm8 c i s) /\
+  (i_code i = C_Test_AL_imm8 -> test_refines i s 8 (instr_test_al_imm8 c i s)).
+Proof.
+  intros c i s Hwf HI Hrf Hn Hs0 Him. split; [|split].
+  - exact (xor_rm8_imm_refines c i s Hwf HI Hn Hrf Hs0 Him).
+  - exact (test_rm8_imm8_refines c i s Hwf HI Hrf Hn Hs0 Him).
+  - exact (test_al_imm8_refines c i s Hwf HI Hrf Hn Hs0 Him).
+Qed.
+
+Theorem C02_adc_32 : forall c i s,
+  wf_regs s -> Inv (mem s) -> 0 <= rflags s < 2 ^ 64 -> i_op_count i = 2 ->
+  (i_op_kind i 0 = OK_Register -> is_gpr32 (i_op_register i 0) = true -> rm32_shape i 1 ->
+   i_code i = C_Adc_r32_rm32 -> rmw32_refines i s ADC (instr_adc_r32_rm32 c i s)) /\
+  (rm32_shape i 0 -> i_op_kind i 1 = OK_Register -> is_gpr32 (i_op_register i 1) = true ->
+   i_code i = C_Adc_rm32_r32 -> rmw32_refines i s ADC (instr_adc_rm32_r32 c i s)).
+Proof.
+  intros c i s Hwf HI Hrf Hn. split.
+  - exact (adc_r32_rm32_refines c i s Hwf HI Hrf Hn).
+  - exact (adc_rm32_r32_refines c i s Hwf HI Hrf Hn).
+Qed.
+
+Theorem C02_adc_imm32 : forall c i s,
+  wf_regs s -> Inv (mem s) -> 0 <= rflags s < 2 ^ 64 -> i_op_count i = 2 ->
+  (rm64_shape i 0 -> imm64_shape i ->
+     adc_refines i s (instr_adc_rm64_imm32 c i s) /\
+     (i_code i = C_Adc_RAX_imm32 -> adc_refines i s (instr_adc_rax_imm32 c i s))) /\
+  (rm32_shape i 0 -> imm32_shape i ->
+     rmw32_refines i s ADC (instr_adc_rm32_imm32 c i s) /\
+     (i_code i = C_Adc_EAX_imm32 -> rmw32_refines i s ADC (instr_adc_eax_imm32 c i s))).
+Proof.
+  intros c i s Hwf HI Hrf Hn. split; intros Hs0 Him; split.
+  - exact (adc_rm64_imm32_refines c i s Hwf HI Hrf Hn Hs0 Him).
+  - exact (adc_rax_imm32_refines c i s Hwf HI Hrf Hn Hs0 Him).
+  - exact (adc_rm32_imm32_refines c i s Hwf HI Hrf Hn Hs0 Him).
+  - exact (adc_eax_imm32_refines c i s Hwf HI Hrf Hn Hs0 Him).
+Qed.
+
+Theorem C02_xor_rm_r_32_16_8 : forall c i s,
+  wf_regs s -> Inv (mem s) -> 0 <= rflags s < 2 ^ 64 -> i_op_count i = 2 -> i_op_kind i 1 = OK_Register ->
+  (rm32_shape i 0 -> is_gpr32 (i_op_register i 1) = true -> i_code i = C_Xor_rm32_r32 -> rmw32_refines i s XOR (instr_xor_rm32_r32 c i s)) /\
+  (rm16_shape i 0 -> is_gpr16 (i_op_register i 1) = true -> i_code i = C_Xor_rm16_r16 -> rmw16_refines i s XOR (instr_xor_rm16_r16 c i s)) /\
+  (rm8_shape i 0 -> is_gpr8 (i_op_register i 1) = true -> i_code i = C_Xor_rm8_r8 -> rmw8_refines i s XOR (instr_xor_rm8_r8 c i s)).
+Proof.
+  intros c i s Hwf HI Hrf Hn K1. repeat split; intros Hs0 H1 Ec.
+  - exact (xor_rm32_r32_refines c i s Hwf HI Hn Hs0 K1 H1 Hrf Ec).
+  - exact (xor_rm16_r16_refines c i s Hwf HI Hn Hs0 K1 H1 Hrf Ec).
+  - exact (xor_rm8_r8_refines c i s Hwf HI Hn Hs0 K1 H1 Hrf Ec).
+Qed.
+
+(* ADC at 16 and 8 bits (r <- r/m, r/m <- r, r/m <- imm of the same width, the accumulator short form) *)
+Theorem C02_adc_16 : forall c i s,
+  wf_regs s -> Inv (mem s) -> 0 <= rflags s < 2 ^ 64 -> i_op_count i = 2 ->
+  (i_op_kind i 0 = OK_Register -> is_gpr16 (i_op_register i 0) = true -> rm16_shape i 1 ->
+     i_code i = C_Adc_r16_rm16 -> rmw16_refines i s ADC (instr_adc_r16_rm16 c i s)) /\
+  (rm16_shape i 0 -> i_op_kind i 1 = OK_Register -> is_gpr16 (i_op_register i 1) = true ->
+     i_code i = C_Adc_rm16_r16 -> rmw16_refines i s ADC (instr_adc_rm16_r16 c i s)) /\
+  (rm16_shape i 0 -> imm16_shape i -> rmw16_refines i s ADC (instr_adc_rm16_imm16 c i s)) /\
+  (rm16_shape i 0 -> imm16_shape i -> i_code i = C_Adc_AX_imm16 -> rmw16_refines i s ADC (instr_adc_ax_imm16 c i s)).
+Proof.
+  intros c i s Hwf HI Hrf Hn. repeat split.
+  - exact (adc_r16_rm16_refines c i s Hwf HI Hrf Hn).
+  - exact (adc_rm16_r16_refines c i s Hwf HI Hrf Hn).
+  - exact (adc_rm16_imm16_refines c i s Hwf HI Hrf Hn).
+  - exact (adc_ax_imm16_refines c i s Hwf HI Hrf Hn).
+Qed.
+
+Theorem C02_adc_8 : forall c i s,
+  wf_regs s -> Inv (mem s) -> 0 <= rflags s < 2 ^ 64 -> i_op_count i = 2 ->
+  (i_op_kind i 0 = OK_Register -> is_gpr8 (i_op_register i 0) = true -> rm8_shape i 1 ->
+     i_code i = C_Adc_r8_rm8 -> rmw8_refines i s ADC (instr_adc_r8_rm8 c i s)) /\
+  (rm8_shape i 0 -> i_op_kind i 1 = OK_Register -> is_gpr8 (i_op_register i 1) = true ->
+     i_code i = C_Adc_rm8_r8 -> rmw8_refines i s ADC (instr_adc_rm8_r8 c i s)) /\
+  (rm8_shape i 0 -> imm8_shape i -> rmw8_refines i s ADC (instr_adc_rm8_imm8 c i s)) /\
+  (rm8_shape i 0 -> imm8_shape i -> i_code i = C_Adc_AL_imm8 -> rmw8_refines i s ADC (instr_adc_al_imm8 c i s)).
+Proof.
+  intros c i s Hwf HI Hrf Hn. repeat split.
+  - exact (adc_r8_rm8_refines c i s Hwf HI Hrf Hn).
+  - exact (adc_rm8_r8_refines c i s Hwf HI Hrf Hn).
+  - exact (adc_rm8_imm8_refines c i s Hwf HI Hrf Hn).
+  - exact (adc_al_imm8_refines c i s Hwf HI Hrf Hn).
+Qed.
+
+(* ---- multiplication.  The architecture leaves SF, ZF and PF undefined after MUL / IMUL; the emulator's flag
+   helper is called with the constant result 0, so it sets ZF and keeps SF and PF.  mul_refines says: the step
+   succeeds exactly when the specification completes, and its state is the specification's with ZF set - every
+   register (low and high half of the product), memory, CF and OF (set exactly when the product does not fit
+   the operand size: unsigned for MUL, signed for IMUL) are the architectural ones; an unreadable memory
+   operand fails the step and changes nothing.  The double-width arithmetic (sign extension, wrapping product,
+   the "bits above w-1 are neither all 0 nor all 1" overflow test) is proved once for every operand width
+   (Proofs/MulP.v, Section MulGen / UMulGen). ---- *)
+Theorem C02_imul_two_operand : forall c i s,
+  wf_regs s -> Inv (mem s) -> 0 <= rflags s < 2 ^ 64 -> i_op_count i = 2 -> i_op_kind i 0 = OK_Register ->
+  (is_gpr64 (i_op_register i 0) = true -> rm64_shape i 1 -> i_code i = C_Imul_r64_rm64 ->
+     mul_refines (SImul2 64) i s (instr_imul_r64_rm64 c i s)) /\
+  (is_gpr32 (i_op_register i 0) = true -> rm32_shape i 1 -> i_code i = C_Imul_r32_rm32 ->
+     mul_refines (SImul2 32) i s (instr_imul_r32_rm32 c i s)) /\
+  (is_gpr16 (i_op_register i 0) = true -> rm16_shape i 1 -> i_code i = C_Imul_r16_rm16 ->
+     mul_refines (SImul2 16) i s (instr_imul_r16_rm16 c i s)).
+Proof.
+  intros c i s Hwf HI Hrf Hn K0. repeat split.
+  - exact (imul_r64_rm64_refines c i s Hwf HI Hrf Hn K0).
+  - exact (imul_r32_rm32_refines c i s Hwf HI Hrf Hn K0).
+  - exact (imul_r16_rm16_refines c i s Hwf HI Hrf Hn K0).
+Qed.
+
+Theorem C02_imul_three_operand : forall c i s,
+  wf_regs s -> Inv (mem s) -> 0 <= rflags s < 2 ^ 64 -> i_op_count i = 3 -> i_op_kind i 0 = OK_Register ->
+  (is_gpr64 (i_op_register i 0) = true -> rm64_shape i 1 -> imm3_shape64 i ->
+     (i_code i = C_Imul_r64_rm64_imm8 -> mul_refines (SImul3 64) i s (instr_imul_r64_rm64_imm8 c i s)) /\
+     (i_code i = C_Imul_r64_rm64_imm32 -> mul_refines (SImul3 64) i s (instr_imul_r64_rm64_imm32 c i s))) /\
+  (is_gpr32 (i_op_register i 0) = true -> rm32_shape i 1 -> imm3_shape32 i ->
+     (i_code i = C_Imul_r32_rm32_imm8 -> mul_refines (SImul3 32) i s (instr_imul_r32_rm32_imm8 c i s)) /\
+     (i_code i = C_Imul_r32_rm32_imm32 -> mul_refines (SImul3 32) i s (instr_imul_r32_rm32_imm32 c i s))) /\
+  (is_gpr16 (i_op_register i 0) = true -> rm16_shape i 1 -> imm3_shape16 i ->
+     (i_code i = C_Imul_r16_rm16_imm8 -> mul_refines (SImul3 16) i s (instr_imul_r16_rm16_imm8 c i s)) /\
+     (i_code i = C_Imul_r16_rm16_imm16 -> mul_refines (SImul3 16) i s (instr_imul_r16_rm16_imm16 c i s))).
+Proof.
+  intros c i s Hwf HI Hrf Hn K0. split; [|split]; intros H0 Hs1 Him; split.
+  - exact (imul_r64_rm64_imm8_refines c i s Hwf HI Hrf Hn K0 H0 Hs1 Him).
+  - exact (imul_r64_rm64_imm32_refines c i s Hwf HI Hrf Hn K0 H0 Hs1 Him).
+  - exact (imul_r32_rm32_imm8_refines c i s Hwf HI Hrf Hn K0 H0 Hs1 Him).
+  - exact (imul_r32_rm32_imm32_refines c i s Hwf HI Hrf Hn K0 H0 Hs1 Him).
+  - exact (imul_r16_rm16_imm8_refines c i s Hwf HI Hrf Hn K0 H0 Hs1 Him).
+  - exact (imul_r16_rm16_imm16_refines c i s Hwf HI Hrf Hn K0 H0 Hs1 Him).
+Qed.
+
+Theorem C02_mul_imul_one_operand : forall c i s,
+  wf_regs s -> Inv (mem s) -> 0 <= rflags s < 2 ^ 64 -> i_op_count i = 1 ->
+  (rm64_shape i 0 ->
+     (i_code i = C_Imul_rm64 -> mul_refines (SImul1 64) i s (instr_imul_rm64 c i s)) /\
+     (i_code i = C_Mul_rm64 -> mul_refines (SMul 64) i s (instr_mul_rm64 c i s))) /\
+  (rm32_shape i 0 ->
+     (i_code i = C_Imul_rm32 -> mul_refines (SImul1 32) i s (instr_imul_rm32 c i s)) /\
+     (i_code i = C_Mul_rm32 -> mul_refines (SMul 32) i s (instr_mul_rm32 c i s))) /\
+  (rm16_shape i 0 ->
+     (i_code i = C_Imul_rm16 -> mul_refines (SImul1 16) i s (instr_imul_rm16 c i s)) /\
+     (i_code i = C_Mul_rm16 -> mul_refines (SMul 16) i s (instr_mul_rm16 c i s))) /\
+  (rm8_shape i 0 ->
+     (i_code i = C_Imul_rm8 -> mul_refines (SImul1 8) i s (instr_imul_rm8 c i s)) /\
+     (i_code i = C_Mul_rm8 -> mul_refines (SMul 8) i s (instr_mul_rm8 c i s))).
+Proof.
+  intros c i s Hwf HI Hrf Hn. split; [|split; [|split]]; intros Hs; split.
+  - exact (imul_rm64_refines c i s Hwf HI Hrf Hn Hs).
+  - exact (mul_rm64_refines c i s Hwf HI Hrf Hn Hs).
+  - exact (imul_rm32_refines c i s Hwf HI Hrf Hn Hs).
+  - exact (mul_rm32_refines c i s Hwf HI Hrf Hn Hs).
+  - exact (imul_rm16_refines c i s Hwf HI Hrf Hn Hs).
+  - exact (mul_rm16_refines c i s Hwf HI Hrf Hn Hs).
+  - exact (imul_rm8_refines c i s Hwf HI Hrf Hn Hs).
+  - exact (mul_rm8_refines c i s Hwf HI Hrf Hn Hs).
+Qed.
+
+
+(* SHL / SHR at 16 and 8 bits.  The count is masked to five bits and can reach or exceed the operand width:
+   the result is then 0, CF is the last bit shifted out when the count equals the width and 0 beyond it - the
+   values the specification computes (the architecture leaves CF undefined there) *)
+Theorem C02_shift_rm16 : forall c i s,
+  wf_regs s -> Inv (mem s) -> 0 <= rflags s < 2 ^ 64 -> i_op_count i = 2 -> rm16_shape i 0 ->
+  (i_op_kind i 1 = OK_Register -> i_op_register i 1 = CL ->
+     (i_code i = C_Shl_rm16_CL -> shift16_refines i s true CntCL (instr_shl_rm16_cl c i s)) /\
+     (i_code i = C_Shr_rm16_CL -> shift16_refines i s false CntCL (instr_shr_rm16_cl c i s))) /\
+  (i_op_kind i 1 = OK_Immediate8 -> 0 <= i_immediate8 i < 2 ^ 8 ->
+     (i_code i = C_Shl_rm16_imm8 -> shift16_refines i s true CntImm (instr_shl_rm16_imm8 c i s)) /\
+     (i_code i = C_Shr_rm16_imm8 -> shift16_refines i s false CntImm (instr_shr_rm16_imm8 c i s))).
+Proof. exact shift_rm16_refines. Qed.
+
+Theorem C02_shift_rm8 : forall c i s,
+  wf_regs s -> Inv (mem s) -> 0 <= rflags s < 2 ^ 64 -> i_op_count i = 2 -> rm8_shape i 0 ->
+  (i_op_kind i 1 = OK_Register -> i_op_register i 1 = CL ->
+     (i_code i = C_Shl_rm8_CL -> shift8_refines i s true CntCL (instr_shl_rm8_cl c i s)) /\
+     (i_code i = C_Shr_rm8_CL -> shift8_refines i s false CntCL (instr_shr_rm8_cl c i s))) /\
+  (i_op_kind i 1 = OK_Immediate8 -> 0 <= i_immediate8 i < 2 ^ 8 ->
+     (i_code i = C_Shl_rm8_imm8 -> shift8_refines i s true CntImm (instr_shl_rm8_imm8 c i s)) /\
+     (i_code i = C_Shr_rm8_imm8 -> shift8_refines i s false CntImm (instr_shr_rm8_imm8 c i s))).
+Proof. exact shift_rm8_refines. Qed.
+
+(* the one-bit encodings at 32, 16 and 8 bits *)
+Theorem C02_shift_rm32_1 : forall c i s,
+  wf_regs s -> Inv (mem s) -> 0 <= rflags s < 2 ^ 64 -> i_op_count i = 2 -> rm32_shape i 0 ->
+  i_op_kind i 1 = OK_Immediate8 -> i_immediate8 i = 1 ->
+  (i_code i = C_Shl_rm32_1 -> shift32_refines i s true CntOne (instr_shl_rm32_1 c i s)) /\
+  (i_code i = C_Shr_rm32_1 -> shift32_refines i s false CntOne (instr_shr_rm32_1 c i s)).
+Proof.
+  intros c i s Hwf HI Hrf Hn Hs0 K1 R1. split; intros Ec.
+  - exact (shl_rm32_1_refines c i s Hwf HI Hrf Hn Hs0 K1 R1 Ec).
+  - exact (shr_rm32_1_refines c i s Hwf HI Hrf Hn Hs0 K1 R1 Ec).
+Qed.
+
+Theorem C02_shift_rm16_1 : forall c i s,
+  wf_regs s -> Inv (mem s) -> 0 <= rflags s < 2 ^ 64 -> i_op_count i = 2 -> rm16_shape i 0 ->
+  i_op_kind i 1 = OK_Immediate8 -> i_immediate8 i = 1 ->
+  (i_code i = C_Shl_rm16_1 -> shift16_refines i s true CntOne (instr_shl_rm16_1 c i s)) /\
+  (i_code i = C_Shr_rm16_1 -> shift16_refines i s false CntOne (instr_shr_rm16_1 c i s)).
+Proof.
+  intros c i s Hwf HI Hrf Hn Hs0 K1 R1. split; intros Ec.
+  - exact (shl_rm16_1_refines c i s Hwf HI Hrf Hn Hs0 K1 R1 Ec).
+  - exact (shr_rm16_1_refines c i s Hwf HI Hrf Hn Hs0 K1 R1 Ec).
+Qed.
+
+Theorem C02_shift_rm8_1 : forall c i s,
+  wf_regs s -> Inv (mem s) -> 0 <= rflags s < 2 ^ 64 -> i_op_count i = 2 -> rm8_shape i 0 ->
+  i_op_kind i 1 = OK_Immediate8 -> i_immediate8 i = 1 ->
+  (i_code i = C_Shl_rm8_1 -> shift8_refines i s true CntOne (instr_shl_rm8_1 c i s)) /\
+  (i_code i = C_Shr_rm8_1 -> shift8_refines i s false CntOne (instr_shr_rm8_1 c i s)).
+Proof.
+  intros c i s Hwf HI Hrf Hn Hs0 K1 R1. split; intros Ec.
+  - exact (shl_rm8_1_refines c i s Hwf HI Hrf Hn Hs0 K1 R1 Ec).
+  - exact (shr_rm8_1_refines c i s Hwf HI Hrf Hn Hs0 K1 R1 Ec).
+Qed.
+
+
 Print Assumptions cond_matches_sdm.
 Print Assumptions C02_set_flags_64.
 Print Assumptions C02_set_flags_8.
@@ -359,3 +851,33 @@ Print Assumptions C02_unary_rm64.
 Print Assumptions C02_alu_rm32_imm.
 Print Assumptions C02_adc_64.
 Print Assumptions C02_unary_rm32.
+Print Assumptions C02_xor_imm.
+Print Assumptions C02_test_imm.
+Print Assumptions C02_shift_rm64.
+Print Assumptions C02_shift_rm32.
+Print Assumptions C02_alu_r16_rm16.
+Print Assumptions C02_alu_rm16_r16.
+Print Assumptions C02_alu_rm16_imm.
+Print Assumptions C02_unary_rm16.
+Print Assumptions C02_test_rm16_r16.
+Print Assumptions C02_alu_r8_rm8.
+Print Assumptions C02_alu_rm8_r8.
+Print Assumptions C02_alu_rm8_imm.
+Print Assumptions C02_unary_rm8.
+Print Assumptions C02_test_rm8_r8.
+Print Assumptions C02_xor_test_imm16.
+Print Assumptions C02_xor_test_imm8.
+Print Assumptions C02_adc_32.
+Print Assumptions C02_adc_imm32.
+Print Assumptions C02_xor_rm_r_32_16_8.
+Print Assumptions C02_shift_rm64_1.
+Print Assumptions C02_adc_16.
+Print Assumptions C02_adc_8.
+Print Assumptions C02_imul_two_operand.
+Print Assumptions C02_imul_three_operand.
+Print Assumptions C02_mul_imul_one_operand.
+Print Assumptions C02_shift_rm16.
+Print Assumptions C02_shift_rm8.
+Print Assumptions C02_shift_rm32_1.
+Print Assumptions C02_shift_rm16_1.
+Print Assumptions C02_shift_rm8_1.
